@@ -377,32 +377,10 @@ pub fn check_multi(files: &[File], dj: &str, acc: &mut Acc) {
     }
 }
 
-pub fn run(tier: &str) -> i32 {
-    let thorough = tier == "thorough";
-    let mut rep = Report::new("C07", tier);
-    let g = Gen::standard(true);
-    let b = bfs(&g, 3, 60_000);
-    let mut progs: Vec<File> = vec![];
-    let all: Vec<File> = b.levels.iter().flatten().cloned().collect();
-    let want_n = if thorough { 1500 } else { 60 };
-    let step = (all.len() / want_n).max(1);
-    progs.extend(all.iter().step_by(step).cloned());
-    progs.extend(crate::c09::extra_pool());
-    // three-rule files with one rule of each status (so that every section is non-empty)
-    let lp = leaf_pool();
-    let mut sk = rule("rs", vec![vec![lp[0].clone()]]);
-    sk.when = Some(vec![vec![un(vec![key("zz")], UnOp::Exists, false)]]);
-    progs.push(File { lets: vec![], rules: vec![rule("rp", vec![vec![un(vec![key("zz")], UnOp::Exists, true)]]), rule("rf", vec![vec![un(vec![key("zz")], UnOp::Exists, false)]]), sk.clone(), rule("rq", vec![vec![lp[0].clone()], vec![lp[9].clone()]])], default: vec![] });
-    let progs: Vec<File> = progs.iter().map(|f| tag_messages(f, "")).collect();
-    let mut docs: Vec<V> = docs_quick().into_iter().step_by(if thorough { 3 } else { 7 }).collect();
-    docs.push(m(vec![("a", l(vec![m(vec![("a", i(1)), ("b", i(1))]), m(vec![("b", i(2))])])), ("b", i(1))]));
-    let djs: Vec<String> = docs.iter().map(|d| d.json()).collect();
-    let cfgs = configs();
-    let n = progs.len() * djs.len();
-    let res = crate::par::run(n, rep.seed as u64, crate::par::deadline_secs(if thorough { 3000 } else { 45 }), Acc::new, |k, acc| {
-        let (pi, di) = (k / djs.len(), k % djs.len());
-        let text = print_file(&progs[pi]);
-        let dj = &djs[di];
+/// one (rules text, document): every output configuration against the library's verbose record
+pub fn check_pair_all_configs(text: &str, dj: &str, cfgs: &[Config], acc: &mut Acc) {
+    let text = text.to_string();
+    let dj = &dj.to_string();
         let rec = match lib_record(&text, dj) {
             Ok(r) => r,
             Err(_) => {
@@ -432,7 +410,7 @@ pub fn run(tier: &str) -> i32 {
             },
             other => acc.violate("library-report", format!("run_checks(verbose=false) gives {:?} where verbose succeeded", other), json!({"kind":"lib","rules":text,"data":dj,"expected":"report","observed":format!("{:?}", other)})),
         }
-        for c in &cfgs {
+        for c in cfgs.iter() {
             check_config(c, &text, dj, &base, leafs, acc);
             acc.nontrivial += 1;
         }
@@ -457,7 +435,59 @@ pub fn run(tier: &str) -> i32 {
             }
             (a, b2) => acc.violate("structured-not-well-formed", format!("json ok={} yaml ok={}; rules `{}` data {}", a.is_ok(), b2.is_ok(), text.trim(), dj), json!({"kind":"cli","files":{"rules":text,"data":dj},"expected":"well-formed","observed":"parse failure"})),
         }
+}
+
+pub fn run(tier: &str) -> i32 {
+    let thorough = tier == "thorough";
+    let mut rep = Report::new("C07", tier);
+    let g = Gen::standard(true);
+    let b = bfs(&g, 3, 60_000);
+    let mut progs: Vec<File> = vec![];
+    let all: Vec<File> = b.levels.iter().flatten().cloned().collect();
+    let want_n = if thorough { 1500 } else { 60 };
+    let step = (all.len() / want_n).max(1);
+    progs.extend(all.iter().step_by(step).cloned());
+    progs.extend(crate::c09::extra_pool());
+    // three-rule files with one rule of each status (so that every section is non-empty)
+    let lp = leaf_pool();
+    let mut sk = rule("rs", vec![vec![lp[0].clone()]]);
+    sk.when = Some(vec![vec![un(vec![key("zz")], UnOp::Exists, false)]]);
+    progs.push(File { lets: vec![], rules: vec![rule("rp", vec![vec![un(vec![key("zz")], UnOp::Exists, true)]]), rule("rf", vec![vec![un(vec![key("zz")], UnOp::Exists, false)]]), sk.clone(), rule("rq", vec![vec![lp[0].clone()], vec![lp[9].clone()]])], default: vec![] });
+    let progs: Vec<File> = progs.iter().map(|f| tag_messages(f, "")).collect();
+    let mut docs: Vec<V> = docs_quick().into_iter().step_by(if thorough { 3 } else { 7 }).collect();
+    docs.push(m(vec![("a", l(vec![m(vec![("a", i(1)), ("b", i(1))]), m(vec![("b", i(2))])])), ("b", i(1))]));
+    let djs: Vec<String> = docs.iter().map(|d| d.json()).collect();
+    let cfgs = configs();
+    let n = progs.len() * djs.len();
+    let res = crate::par::run(n, rep.seed as u64, crate::par::deadline_secs(if thorough { 3000 } else { 45 }), Acc::new, |k, acc| {
+        let (pi, di) = (k / djs.len(), k % djs.len());
+        let text = print_file(&progs[pi]);
+        let dj = &djs[di];
+        check_pair_all_configs(&text, dj, &cfgs, acc);
     }, Acc::merge);
+    // ---- markup and quote characters in compared strings, custom messages and keys: every rendering stays well-formed
+    let specials = ["R&D", "a<b", "a>b", "\"q\"", "it's", "]]>", "&amp;", "&#x41;", "a&b<c>d\"e'f", "<!--", "é&ü"];
+    let mut sp: Vec<(String, String)> = vec![];
+    for sp1 in specials {
+        let doc = m(vec![("a", s(sp1)), ("b", l(vec![s(sp1), s("zz")])), (sp1, i(1))]);
+        let msg = sp1.replace(">>", "> >");
+        let files = [
+            file1(rule("r", vec![vec![bin(vec![key("a")], BinOp::Eq, false, s("zz")).with_msg(&msg)]])),
+            file1(rule("r", vec![vec![bin(vec![key("a")], BinOp::Eq, true, s(sp1))]])),
+            file1(rule("r", vec![vec![bin(vec![key("b"), Part::All], BinOp::Eq, false, s(sp1)).with_msg(&msg)], vec![un(vec![key("zz")], UnOp::Exists, false).with_msg(&msg)]])),
+            file1(rule("r", vec![vec![bin(vec![key(sp1)], BinOp::Eq, false, i(2))], vec![bin(vec![key("a")], BinOp::In, false, l(vec![s("x"), s(sp1)]))]])),
+            File { lets: vec![], rules: vec![rule("p", vec![vec![bin(vec![key("a")], BinOp::Eq, false, s(sp1))]]), rule("f", vec![vec![bin(vec![key("a")], BinOp::Eq, false, V::Regex("^zz$".into())).with_msg(&msg)]])], default: vec![] },
+        ];
+        for f in files {
+            sp.push((print_file(&f), doc.json()));
+        }
+    }
+    let r3 = crate::par::run(sp.len(), rep.seed as u64, None, Acc::new, |k, acc| {
+        check_pair_all_configs(&sp[k].0, &sp[k].1, &cfgs, acc);
+    }, Acc::merge);
+    rep.extra.insert("special_character_pairs".into(), json!(sp.len()));
+    let mut res = res;
+    res.acc = Acc::merge(res.acc, r3.acc);
     // ---- several rules files against one document: the renderings must agree with each other
     let pool_idx: Vec<usize> = (0..10).map(|k| (k * 131 + 7) % progs.len()).collect();
     let pool: Vec<File> = pool_idx.iter().enumerate().map(|(k, pi)| tag_messages(&crate::c09::rename_rules(&progs[*pi], &format!("f{}", k)), &format!("f{}", k))).collect();
